@@ -56,6 +56,7 @@ def main():
     ap.add_argument('--seed', default='1')
     ap.add_argument('--all', action='store_true')
     ap.add_argument('--only')
+    ap.add_argument('--kind', default='all', choices=['all', 'seeded', 'mutants'])
     args = ap.parse_args()
     if not args.all:
         rc, _ = run_one(args.pid, args.patch, args.reverse, args.tier, args.seed)
@@ -63,11 +64,11 @@ def main():
         return 0 if rc == 1 else (1 if rc == 0 else 2)
     rows = []
     items = []
-    for meta in sorted(glob.glob(os.path.join(HERE, 'seeded', '*', 'meta.json'))):
+    for meta in sorted(glob.glob(os.path.join(HERE, 'seeded', '*', 'meta.json'))) if args.kind != 'mutants' else []:
         d = os.path.dirname(meta)
         m = json.load(open(meta))
         items.append((m['property'], os.path.join(d, 'patch.diff'), os.path.basename(d), False))
-    for p in sorted(glob.glob(os.path.join(HERE, 'mutants', '*.patch'))):
+    for p in sorted(glob.glob(os.path.join(HERE, 'mutants', '*.patch'))) if args.kind != 'seeded' else []:
         name = os.path.basename(p)
         items.append((name.split('_')[0], p, name, name.endswith('.rev.patch')))
     for pid, patch, name, rev in items:
